@@ -28,7 +28,11 @@ from .materialize import TextBuilder, dsdl_type_text
 
 IDENT_POOL = ["a", "b", "c", "d", "e", "f", "g", "h", "value", "x1", "field_name", "Z", "camelCase", "_under", "q_", "v2"]
 CONST_POOL = ["A", "B", "C", "D", "E", "F", "MAX", "MIN_VALUE", "k9", "Const_1"]
-COMMENT_TEXT = st.text(alphabet="abcXYZ 019_-+*/#'\"@{}().,;:!?<=>\t", max_size=12)
+# any character but CR / LF may appear in a comment; the second alphabet holds the ones that *other* notions of "line" split at
+COMMENT_TEXT = st.one_of(
+    st.text(alphabet="abcXYZ 019_-+*/#'\"@{}().,;:!?<=>\t", max_size=12),
+    st.text(alphabet="ab #\x0b\x0c\x1c\x1d\x1e\x85\u2028\u2029\u00a0\ufeff\u200b", max_size=6),
+)
 
 
 def comment_line() -> st.SearchStrategy:
@@ -307,7 +311,8 @@ def render(model: typing.Any, fmt: typing.Any, tb: TextBuilder) -> str:
 def type_string(spec: typing.Any, refs: typing.Dict[int, str], root: str) -> str:
     k = spec[0]
     if k in ("struct", "union", "delim"):
-        return "%s.%s" % (root, refs[id(spec)])
+        r = refs[id(spec)]
+        return r if r.startswith(root + ".") else "%s.%s" % (root, r)
     if k == "fixed":
         return "%s[%d]" % (type_string(spec[1], refs, root), spec[2])
     if k == "var":
